@@ -98,6 +98,15 @@ CLAIMS.update({
     ),
 })
 
+CLAIMS.update({
+    "C10": dict(
+        technique="abstract interpretation over the sign lattice {non-negative, any} (interprocedural, summaries per abstract call-site arguments, configurations = built-in and non-negative user initialisations x core solver), plus AST lints for PARAFAC2's solver selection and line-search clipping",
+        text="Decides: for non_negative_parafac, non_negative_parafac_hals, non_negative_tucker, non_negative_tucker_hals (fista and active-set cores), the initialisers with non_negative=True and the NNLS solvers (hals_nnls, fista, active_set_nnls), under svd / random / non-negative user initialisation and arbitrary signed data, every weight, factor and core slot of the returned wrapper (solver: the solution) is built from clipped / absolute-valued operands by sign-preserving operators; PARAFAC2 with nn_modes delegates to the HALS solver with nn_modes forwarded and clips the line-search iterate on exactly modes 0 and 2. Normalisers and solver summaries are computed, not assumed.",
+        note="Stated assumptions: non-negative user initialisation (as in the property); for hals_nnls: range(rank) and the literal iteration count run at least once and every row is updated (UtU[k,k] != 0, 'well-conditioned'); HALS-CP is analysed with every mode declared non-negative; NaN/inf (0/0) ignored; PARAFAC2's signed SVD initialisation (zero-sweep output) is outside the claim; constrained CP's non-negativity is C11's SIGN-HANDLER/PROX-TYPESTATE.",
+        design="DESIGN.md §3 C10",
+    ),
+})
+
 NA = {
     "C04": "Equality of floating-point tensors across norms, signs, QR and SVD: no structural necessary condition exists that is not a frozen copy of the formula; the one shape-level clause (transforms must not write into their argument) is decided under C15.",
     "C05": "Singular values, orthonormality and optimal truncation error are numerical facts about LAPACK results; no sound static argument bounds them.",
